@@ -175,7 +175,15 @@ type PluginService struct {
 	inc int
 }
 
+// pluginGone is a plugin name no registry knows: a connector can be switched to it through the
+// API (an update is validated against the plugin the connector had), after which nothing can
+// be dispensed for it - start, and the clean-up of a delete, fail.
+const pluginGone = "sim-gone"
+
 func (p *PluginService) NewDispenser(_ log.CtxLogger, name string, connectorID string) (connectorPlugin.Dispenser, error) {
+	if name == pluginGone {
+		return nil, cerrors.Errorf("sim: plugin %q not found", name)
+	}
 	return &simDispenser{w: p.w, id: connectorID, inc: p.inc, name: name}, nil
 }
 
